@@ -29,7 +29,7 @@ func c05Graph(r *rand.Rand) *lib.Graph {
 		}
 		nd := g.AddNode(id, types...)
 		if r.Intn(4) != 0 {
-			nd.Add(lib.EX+"name", lib.StrV(pick(r, "alpha", "beta", "gamma delta", "x")))
+			nd.Add(lib.EX+"name", lib.StrV(pick(r, "alpha", "beta", "gamma delta", "x", "alpha", "beta", "conforms", "@id", "Violation", "null", "true", "0", "", ids[r.Intn(len(ids))])))
 		}
 		if r.Intn(2) == 0 {
 			nd.Add(lib.EX+"num", lib.IntV(int64(r.Intn(12))))
